@@ -719,6 +719,174 @@ pub fn reference_search(b: &Built, st: &StateTable<u32>, toks: &[TIdx<u32>], cfg
     RefSearch::NoneUpTo(max_cost)
 }
 
+/// Second reference with the same specification as `reference_search`, organised so that its
+/// reach does not collapse on cost tables that mix cost-1 and cost-200+ tokens: partial sequences
+/// are folded by what their future depends on - (stack, input position, "last edit was a
+/// Delete", number of trailing shifts) - keeping for every such configuration its minimum cost and
+/// every (predecessor, edit) pair that attains it. Every prefix of a minimum-cost repair attains the
+/// minimum cost of its configuration (else swapping in the cheaper prefix would give a cheaper
+/// repair with the same future), so unfolding the predecessor DAG from the best-reach successes
+/// of the first successful cost level yields exactly the set `reference_search` enumerates.
+/// c06 cross-checks the two on every error both can decide.
+pub fn reference_search_dag(b: &Built, st: &StateTable<u32>, toks: &[TIdx<u32>], cfg: &Cfg, pos: usize, cost: &dyn Fn(TIdx<u32>) -> u8, max_cost: u32, node_cap: usize, seq_cap: usize) -> RefSearch {
+    use std::collections::{BTreeMap, HashMap};
+    #[derive(Clone, PartialEq, Eq, Hash)]
+    struct Key {
+        stack: Vec<StIdx<u32>>,
+        p: usize,
+        last_delete: bool,
+        ts: usize,
+    }
+    struct KN {
+        key: Key,
+        cost: u32,
+        preds: Vec<(usize, Rep)>,
+        expanded: bool,
+    }
+    let grm = &b.grm;
+    let eof = grm.eof_token_idx();
+    let ntok = usize::from(grm.tokens_len());
+    let mut index: HashMap<Key, usize> = HashMap::new();
+    let mut kn: Vec<KN> = vec![];
+    let mut levels: BTreeMap<u32, Vec<usize>> = BTreeMap::new();
+    let k0 = Key { stack: cfg.stack.clone(), p: pos, last_delete: false, ts: 0 };
+    index.insert(k0.clone(), 0);
+    kn.push(KN { key: k0, cost: 0, preds: vec![], expanded: false });
+    levels.entry(0).or_default().push(0);
+    let mut nodes = 0usize;
+    // returns Some(i) if node i has to be (re)scheduled at cost `c`
+    fn link(index: &mut HashMap<Key, usize>, kn: &mut Vec<KN>, from: usize, rep: Rep, key: Key, c: u32) -> Option<usize> {
+        match index.get(&key) {
+            Some(&i) => {
+                if kn[i].cost == c {
+                    if !kn[i].preds.contains(&(from, rep.clone())) {
+                        kn[i].preds.push((from, rep));
+                    }
+                    None
+                } else if c < kn[i].cost {
+                    debug_assert!(!kn[i].expanded);
+                    kn[i].cost = c;
+                    kn[i].preds = vec![(from, rep)];
+                    Some(i)
+                } else {
+                    None
+                }
+            }
+            None => {
+                let i = kn.len();
+                index.insert(key.clone(), i);
+                kn.push(KN { key, cost: c, preds: vec![(from, rep)], expanded: false });
+                Some(i)
+            }
+        }
+    }
+    while let Some((c, mut work)) = levels.pop_first() {
+        if c > max_cost {
+            break;
+        }
+        let mut successes: Vec<usize> = vec![];
+        while let Some(i) = work.pop() {
+            if kn[i].expanded || kn[i].cost != c {
+                continue;
+            }
+            kn[i].expanded = true;
+            nodes += 1;
+            if nodes > node_cap {
+                return RefSearch::Capped;
+            }
+            let key = kn[i].key.clone();
+            let ndcfg = Cfg { stack: key.stack.clone() };
+            let succ = key.ts >= parse_at_least() || (key.p == toks.len() && ndcfg.clone().feed(grm, st, eof) == Step::Accepted);
+            if succ {
+                successes.push(i);
+                continue;
+            }
+            if !key.last_delete {
+                for t in 0..ntok {
+                    let t = TIdx(t as u32);
+                    if t == eof {
+                        continue;
+                    }
+                    let ct = cost(t) as u32;
+                    let nc = c + ct;
+                    if ct == 0 || nc > max_cost {
+                        continue;
+                    }
+                    let mut c2 = ndcfg.clone();
+                    if c2.feed(grm, st, t) == Step::Shifted {
+                        if let Some(j) = link(&mut index, &mut kn, i, Rep::Insert(u32::from(t)), Key { stack: c2.stack, p: key.p, last_delete: false, ts: 0 }, nc) {
+                            levels.entry(nc).or_default().push(j);
+                        }
+                    }
+                }
+            }
+            if key.p < toks.len() {
+                let ct = cost(toks[key.p]) as u32;
+                let nc = c + ct;
+                if ct > 0 && nc <= max_cost {
+                    if let Some(j) = link(&mut index, &mut kn, i, Rep::Delete(key.p), Key { stack: key.stack.clone(), p: key.p + 1, last_delete: true, ts: 0 }, nc) {
+                        levels.entry(nc).or_default().push(j);
+                    }
+                }
+                let mut c2 = ndcfg.clone();
+                if c2.feed(grm, st, toks[key.p]) == Step::Shifted {
+                    if let Some(j) = link(&mut index, &mut kn, i, Rep::Shift(key.p), Key { stack: c2.stack, p: key.p + 1, last_delete: false, ts: key.ts + 1 }, c) {
+                        work.push(j);
+                    }
+                }
+            }
+        }
+        if !successes.is_empty() {
+            let limit = pos + try_parse_at_most();
+            let mut best = 0usize;
+            let mut reach: Vec<usize> = vec![];
+            for &s in &successes {
+                let k = &kn[s].key;
+                let (sh, _) = continue_plain(b, st, toks, &Cfg { stack: k.stack.clone() }, k.p, limit.saturating_sub(k.p));
+                reach.push(k.p + sh);
+                best = best.max(k.p + sh);
+            }
+            // unfold every minimum-cost history of the best-reach successes (and count those of the others)
+            let mut set = BTreeSet::new();
+            let mut removed = 0usize;
+            let mut total = 0usize;
+            for (&s, &r) in successes.iter().zip(reach.iter()) {
+                // (node, reversed suffix)
+                let mut stack: Vec<(usize, Vec<Rep>)> = vec![(s, vec![])];
+                while let Some((i, suf)) = stack.pop() {
+                    total += 1;
+                    if total > seq_cap * 8 {
+                        return RefSearch::Capped;
+                    }
+                    if kn[i].preds.is_empty() {
+                        if r == best {
+                            let mut q: Vec<Rep> = suf.iter().rev().cloned().collect();
+                            while matches!(q.last(), Some(Rep::Shift(_))) {
+                                q.pop();
+                            }
+                            set.insert(q);
+                            if set.len() > seq_cap {
+                                return RefSearch::Capped;
+                            }
+                        } else {
+                            removed += 1;
+                        }
+                        continue;
+                    }
+                    for (pi, rep) in &kn[i].preds {
+                        let mut s2 = suf.clone();
+                        s2.push(rep.clone());
+                        stack.push((*pi, s2));
+                    }
+                }
+            }
+            let n_before = set.len() + removed;
+            return RefSearch::Found(c, set, RefInfo { successes_before_ranking: n_before, removed_by_ranking: removed, nodes });
+        }
+    }
+    RefSearch::NoneUpTo(max_cost)
+}
+
 pub fn seq_cost(b: &Built, toks: &[TIdx<u32>], cost: &dyn Fn(TIdx<u32>) -> u8, seq: &[Rep]) -> u32 {
     let _ = b;
     seq.iter()
